@@ -347,8 +347,8 @@ func (m *Machine) hasMethod(t types.Type, name string) bool {
 
 // jsonEncode converts a typed interpreter value into a generic tree.
 func (m *Machine) jsonEncode(t types.Type, v Value, depth int) Value {
-	if depth > 64 {
-		m.fail("unsupported", "json: encoding deeper than 64 levels (cycle?)")
+	if depth > 1024 {
+		m.fail("unsupported", "json: encoding deeper than 1024 levels (cycle?)")
 	}
 	if _, isIface := t.Underlying().(*types.Interface); !isIface {
 		if m.hasMethod(t, "MarshalJSON") || m.hasMethod(t, "MarshalText") {
